@@ -18,51 +18,70 @@ fn wit(buf: &[u8]) -> Value {
 pub fn check_mutant(ctx: &mut Ctx, m: &[u8]) {
     ctx.eval();
     let rp = ref_parse(m);
-    ctx.wd.enter("Message::from_bytes", m);
-    let r = guard(|| Message::from_bytes(m).map(|_| ()));
-    ctx.wd.leave();
     let ref_has_fp = rp.attrs.iter().any(|a| a.ty == FP);
     let ref_fp_bad = rp.causes.iter().any(|c| matches!(c, Cause::FingerprintMismatch | Cause::MalformedFingerprint));
-    match r {
-        Err(p) => ctx.violation("C01", "no-panic", "Message::from_bytes", "fp-mutant", || wit(m), "Ok or Err".into(), format!("panic: {} at {}", p.msg, p.loc)),
-        Ok(Ok(())) => {
-            ctx.count("mutant-accepted");
-            if ref_fp_bad {
-                ctx.violation(
-                    "C09",
-                    "bad-fingerprint-rejected",
-                    "Message::from_bytes",
-                    if rp.excess > 0 { "excess" } else { "" },
-                    || wit(m),
-                    "Err: the buffer carries a FINGERPRINT that does not match its bytes".into(),
-                    "Ok".into(),
-                );
-            } else if !rp.accepted() || rp.excess > 0 {
-                // some other defect the reference sees: C02's business
-                ctx.violation("C02", "accept-iff", "Message::from_bytes", "fp-mutant", || wit(m), format!("{:?}", rp.causes), "Ok".into());
-            } else if ref_has_fp {
-                ctx.count("mutant-accepted-with-valid-fingerprint");
+    // both decoding entry points: `Message::from_bytes` and the `TryFrom<&[u8]>` conversion
+    for entry in ["Message::from_bytes", "TryFrom<&[u8]> for Message"] {
+        ctx.wd.enter(entry, m);
+        let r = guard(|| {
+            if entry == "Message::from_bytes" {
+                Message::from_bytes(m).map(|_| ())
             } else {
-                ctx.count("mutant-accepted-fingerprint-dissolved");
+                <Message as std::convert::TryFrom<&[u8]>>::try_from(m).map(|_| ())
             }
-        }
-        Ok(Err(e)) => {
-            ctx.count("mutant-rejected");
-            if matches!(e, StunParseError::FingerprintMismatch) {
-                ctx.count("mutant-rejected-fingerprint-mismatch");
-                if !ref_fp_bad && rp.excess == 0 {
+        });
+        ctx.wd.leave();
+        match r {
+            Err(p) => ctx.violation("C01", "no-panic", entry, "fp-mutant", || wit(m), "Ok or Err".into(), format!("panic: {} at {}", p.msg, p.loc)),
+            Ok(Ok(())) => {
+                ctx.count("mutant-accepted");
+                if ref_fp_bad {
                     ctx.violation(
                         "C09",
-                        "good-fingerprint-accepted",
-                        "Message::from_bytes",
-                        "",
+                        "bad-fingerprint-rejected",
+                        entry,
+                        if rp.excess > 0 { "excess" } else { "" },
                         || wit(m),
-                        format!("not FingerprintMismatch (reference causes: {:?})", rp.causes),
-                        "Err(FingerprintMismatch)".into(),
+                        "Err: the buffer carries a FINGERPRINT that does not match its bytes".into(),
+                        "Ok".into(),
                     );
+                } else if !rp.accepted() || rp.excess > 0 {
+                    // a corrupted fingerprinted message may be accepted only if the corruption dissolved
+                    // the FINGERPRINT into other well-formed attributes: this one is not well-formed at all
+                    // (the independent decoder refuses it for another reason, e.g. a damaged length field)
+                    ctx.violation(
+                        "C09",
+                        "corrupted-accepted-only-if-well-formed",
+                        entry,
+                        "fp-mutant",
+                        || wit(m),
+                        format!("Err: {:?}{}", rp.causes, if rp.excess > 0 { " (bytes beyond the advertised length)" } else { "" }),
+                        "Ok".into(),
+                    );
+                } else if ref_has_fp {
+                    ctx.count("mutant-accepted-with-valid-fingerprint");
+                } else {
+                    ctx.count("mutant-accepted-fingerprint-dissolved");
                 }
-            } else if rp.accepted() && rp.excess == 0 {
-                ctx.violation("C02", "accept-iff", "Message::from_bytes", "fp-mutant", || wit(m), "Ok".into(), format!("Err({e:?})"));
+            }
+            Ok(Err(e)) => {
+                ctx.count("mutant-rejected");
+                if matches!(e, StunParseError::FingerprintMismatch) {
+                    ctx.count("mutant-rejected-fingerprint-mismatch");
+                    if !ref_fp_bad && rp.excess == 0 {
+                        ctx.violation(
+                            "C09",
+                            "good-fingerprint-accepted",
+                            entry,
+                            "",
+                            || wit(m),
+                            format!("not FingerprintMismatch (reference causes: {:?})", rp.causes),
+                            "Err(FingerprintMismatch)".into(),
+                        );
+                    }
+                } else if rp.accepted() && rp.excess == 0 {
+                    ctx.violation("C02", "accept-iff", entry, "fp-mutant", || wit(m), "Ok".into(), format!("Err({e:?})"));
+                }
             }
         }
     }
